@@ -51,8 +51,10 @@ def _init_worker(opts):
     _CTX.update({"pristine": None, "pristine_final": False})
     if opts.get("pristine"):
         from .refmodel import PristineServer
+        import scipy.fftpack, scipy.linalg, scipy.signal  # noqa: F401  (imports only; no spectrum function is called)
         _CTX["pristine"] = PristineServer()
         _CTX["pristine_final"] = True
+        _CTX["pristine_rate"] = int(opts.get("pristine_rate", 1))
     signal.signal(signal.SIGALRM, _alarm)
     faulthandler.enable()
 
